@@ -2,8 +2,14 @@
 QV.Model.CDStep — model of one training step (C06):
 `compute_batch_gradients` (neural_state.py:417-447), `vector_to_grads` (utils/gradients_utils.py:20-52),
 the inner loop of `fit` (neural_state.py:611-634) with plain SGD.
+
+Gap-closing round: the chain of `compute_batch_gradients` as a probabilistic program STARTED FROM THE NEGATIVE
+BATCH (`vk = self.rbm_am.gibbs_steps(k, neg_batch)`, neural_state.py:441; `gibbsStepsB` of QV.Model.Prob),
+whole runs for the complex and the mixed state with a per-batch learning rate, and the epoch structure of `fit`
+with a learning-rate scheduler stepped after every epoch (neural_state.py:601-641).
 -/
 import QV.Model.Grads
+import QV.Model.Prob
 namespace QV
 namespace CDStep
 
@@ -54,6 +60,110 @@ def stepDM (lr eps : α) (am ph : PRBM α n h a) (dict : Char → M2 α) (D : Li
 def runPos (lr : α) (am0 : RBM α n h) (batches : List ((Σ B : Nat, Fin B → Fin n → α) × (Σ M : Nat, Fin M → Fin n → α))) :
     RBM α n h :=
   batches.foldl (fun am b => (stepPos lr am b.1.2 b.2.2).2) am0
+
+/-! ### the negative phase as a program: `vk = self.rbm_am.gibbs_steps(k, neg_batch)` -/
+
+/-- a batch of 0/1 chain states as the `torch.double` rows the gradient code computes with -/
+def bmat {M : Nat} (vs : Fin M → Fin n → Bool) : Fin M → Fin n → α := fun m => bvec (vs m)
+
+/-- the amplitude gradient of `compute_batch_gradients(k, samples_batch, neg_batch, …)` as a program: the chain is
+`rbm_am.gibbs_steps(k, neg_batch)` — `k` block-Gibbs passes over the whole negative batch, started from the rows of
+`neg_batch` (not from the positive batch, not from a persistent buffer) — and the result is
+`positive phase − effective_energy_gradient(vk) / neg_batch.shape[0]`. Returns the chain end states too. -/
+def cdGradAm (posPhaseAm am : RBM α n h) (k : Nat) {M : Nat} (neg : Fin M → Fin n → Bool) :
+    Prog α ((Fin M → Fin n → Bool) × RBM α n h) :=
+  (am.gibbsStepsB k neg).map fun vk => (vk, Grads.batchGradAm posPhaseAm am (bmat vk))
+
+/-- the same for the purification RBM of a `DensityMatrix` (`PurificationRBM.gibbs_steps`) -/
+def cdGradAmDM (posPhaseAm am : PRBM α n h a) (k : Nat) {M : Nat} (neg : Fin M → Fin n → Bool) :
+    Prog α ((Fin M → Fin n → Bool) × PRBM α n h a) :=
+  (am.gibbsStepsB k neg).map fun vk => (vk, Grads.batchGradAmDM posPhaseAm am (bmat vk))
+
+/-- one full training step of the positive state from (parameters, positive batch, NEGATIVE batch, k): chain end
+states, gradient handed to the optimizer, parameters after plain SGD -/
+def cdStepPos (lr : α) (am : RBM α n h) (k : Nat) {B M : Nat} (pos : Fin B → Fin n → α)
+    (neg : Fin M → Fin n → Bool) : Prog α ((Fin M → Fin n → Bool) × (RBM α n h × RBM α n h)) :=
+  (cdGradAm (Grads.positivePhasePos am pos) am k neg).map fun r => (r.1, (r.2, Grads.sgdStep lr am r.2))
+
+def cdStepCplx (lr : α) (am ph : RBM α n h) (dict : Char → M2 α) (D : List (Sample n)) (k : Nat) {M : Nat}
+    (neg : Fin M → Fin n → Bool) :
+    Prog α ((Fin M → Fin n → Bool) × ((RBM α n h × RBM α n h) × (RBM α n h × RBM α n h))) :=
+  let pp := Grads.positivePhaseCplx am ph dict D
+  (cdGradAm pp.1 am k neg).map fun r =>
+    (r.1, ((r.2, pp.2), (Grads.sgdStep lr am r.2, Grads.sgdStep lr ph pp.2)))
+
+def cdStepDM (lr eps : α) (am ph : PRBM α n h a) (dict : Char → M2 α) (D : List (Sample n)) (k : Nat) {M : Nat}
+    (neg : Fin M → Fin n → Bool) :
+    Prog α ((Fin M → Fin n → Bool) × ((PRBM α n h a × PRBM α n h a) × (PRBM α n h a × PRBM α n h a))) :=
+  let pp := Grads.positivePhaseDM am ph dict eps D
+  (cdGradAmDM pp.1 am k neg).map fun r =>
+    (r.1, ((r.2, pp.2), (Grads.sgdStepDM lr am r.2, Grads.sgdStepDM lr ph pp.2)))
+
+/-! ### whole runs: the parameters at batch `t` are the result of all earlier updates -/
+
+/-- the inner loops of `fit` as a fold: `optimizer.step()` maps the parameters and one batch to the new parameters -/
+def foldRun {P β : Type} (step : P → β → P) (p0 : P) (bs : List β) : P := bs.foldl step p0
+
+/-- the parameters after every batch, in order (what a recording optimizer sees after each `step()`) -/
+def foldTrace {P β : Type} (step : P → β → P) : P → List β → List P
+  | _, [] => []
+  | p, b :: bs => let p' := step p b; p' :: foldTrace step p' bs
+
+/-- a positive-state batch: positive rows and chain end states -/
+abbrev PosBatch (α : Type) (n : Nat) := (Σ B : Nat, Fin B → Fin n → α) × (Σ M : Nat, Fin M → Fin n → α)
+/-- a batch with bases: samples (outcome + basis string) and chain end states -/
+abbrev SmpBatch (α : Type) (n : Nat) := List (Sample n) × (Σ M : Nat, Fin M → Fin n → α)
+
+/-- one `optimizer.step()` of plain SGD with the learning rate in force for that batch -/
+def updPos (p : RBM α n h) (b : α × PosBatch α n) : RBM α n h := (stepPos b.1 p b.2.1.2 b.2.2.2).2
+def updCplx (dict : Char → M2 α) (p : RBM α n h × RBM α n h) (b : α × SmpBatch α n) : RBM α n h × RBM α n h :=
+  (stepCplx b.1 p.1 p.2 dict b.2.1 b.2.2.2).2
+def updDM (dict : Char → M2 α) (eps : α) (p : PRBM α n h a × PRBM α n h a) (b : α × SmpBatch α n) :
+    PRBM α n h a × PRBM α n h a :=
+  (stepDM b.1 eps p.1 p.2 dict b.2.1 b.2.2.2).2
+
+/-- a whole run of the complex state with plain SGD at a fixed learning rate -/
+def runCplx (lr : α) (dict : Char → M2 α) (am0 ph0 : RBM α n h) (batches : List (SmpBatch α n)) :
+    RBM α n h × RBM α n h :=
+  foldRun (updCplx dict) (am0, ph0) (batches.map fun b => (lr, b))
+
+/-- a whole run of the mixed state with plain SGD at a fixed learning rate -/
+def runDM (lr eps : α) (dict : Char → M2 α) (am0 ph0 : PRBM α n h a) (batches : List (SmpBatch α n)) :
+    PRBM α n h a × PRBM α n h a :=
+  foldRun (updDM dict eps) (am0, ph0) (batches.map fun b => (lr, b))
+
+/-! ### epochs and the learning-rate scheduler (`scheduler.step()` after the batch loop of every epoch) -/
+
+/-- learning rate in force after `e` calls of `scheduler.step()`; `next e lr` is what the `e`-th call (0-based)
+does to the optimizer's learning rate -/
+def lrAfter (next : Nat → α → α) (lr0 : α) : Nat → α
+  | 0 => lr0
+  | e + 1 => next e (lrAfter next lr0 e)
+
+/-- the epoch loop of `fit`: every batch of an epoch is processed with the learning rate currently in the optimizer;
+AFTER the epoch's last batch the scheduler is stepped once (`e` counts the scheduler steps made so far). -/
+def tagEpochs {β : Type} (next : Nat → α → α) : α → Nat → List (List β) → List (α × β)
+  | _, _, [] => []
+  | lr, e, bs :: rest => bs.map (fun b => (lr, b)) ++ tagEpochs next (next e lr) (e + 1) rest
+
+/-- no scheduler (`scheduler=None`) -/
+def noSched : Nat → α → α := fun _ lr => lr
+
+/-- `torch.optim.lr_scheduler.StepLR(step_size, gamma).step()` in its recursive ("chainable") form: the `e`-th call
+sets `last_epoch = e + 1` and multiplies the learning rate by `gamma` iff `step_size` divides `last_epoch`. -/
+def stepLRNext (gamma : α) (stepSize : Nat) : Nat → α → α :=
+  fun e lr => if (e + 1) % stepSize = 0 then lr * gamma else lr
+
+/-- whole `fit` calls: parameters after every batch of every epoch -/
+def fitTracePos (next : Nat → α → α) (lr0 : α) (am0 : RBM α n h) (epochs : List (List (PosBatch α n))) :
+    List (RBM α n h) :=
+  foldTrace updPos am0 (tagEpochs next lr0 0 epochs)
+def fitTraceCplx (next : Nat → α → α) (lr0 : α) (dict : Char → M2 α) (am0 ph0 : RBM α n h)
+    (epochs : List (List (SmpBatch α n))) : List (RBM α n h × RBM α n h) :=
+  foldTrace (updCplx dict) (am0, ph0) (tagEpochs next lr0 0 epochs)
+def fitTraceDM (next : Nat → α → α) (lr0 eps : α) (dict : Char → M2 α) (am0 ph0 : PRBM α n h a)
+    (epochs : List (List (SmpBatch α n))) : List (PRBM α n h a × PRBM α n h a) :=
+  foldTrace (updDM dict eps) (am0, ph0) (tagEpochs next lr0 0 epochs)
 
 end CDStep
 end QV
